@@ -25,6 +25,11 @@ CHECKS = {
     technique='TLA+/TLC: exhaustive check of the algebra laws (LogicLaws.tla); element-wise trace validation of the real operators on the complete operand domain (OpsT.tla)',
     text='Complete enumeration: every operand tuple (8^k, 4^k, k=1..4) of bp8v_*/bp4v_* at every lane position, all 64 pairs / 8 values of mv_* in 1-D, 2-D and broadcast layouts, seeded random shapes up to rank 3, with no out=, zero-filled, stale and (for NOT) aliasing out= arrays; TLC compares every element of the returned array and of the caller\'s array with the documented algebra and the result shape with the broadcast shape. TLC also proves on the specification that the bit-plane formulas equal the code semantics, the Boolean restriction, De Morgan and k-ary = folded binary.',
     note='Public API only (mv_* unary/binary, bp*v_* 1..4 operands). Aliasing out= with an operand is exercised for NOT only (the form the simulator uses); it is not promised for the other operators. Trusted: TLC, JSON reader, NumPy broadcasting used to flatten operands.'),
+ 'C16': dict(
+    cat='model_checking', ref='DESIGN.md §4 C16, §3 (Netlist.EvalO, CallbackT)',
+    technique='TLA+/TLC: batched trace validation of recorded callback invocations and results of the real LogicSim against CallbackT.tla (netlist semantics with one signal re-driven)',
+    text='The real c_prop is run with a recording callback in all three logics, all option settings, with and without overwriting one random evaluated signal with random values. TLC validates each recording: exactly one invocation per evaluated signal identifying it, operands reported before the signals computed from them (any valid evaluation order is accepted), the view shows the freshly computed value, an untouched run equals the run without callback, and an overwrite equals the TLA+ evaluation of the netlist in which that signal is driven with the overwritten values (downstream reflects it, upstream does not).',
+    note='Identity accepted as Line or index. Scratch-slot invocations (gates without output signal) are ignored. Branches of stripped forks are not evaluated signals. Trusted: TLC, JSON reader, harness projection.'),
  'C07': dict(
     cat='model_checking', ref='DESIGN.md §4 C07, §3 (Schedule, ThreadOrder, SchedReplay)',
     technique='TLA+/TLC: model run of Schedule.tla on the published schedule (all Begin/End interleavings for narrow levels, level-wise static form for all); TLC-simulated thread orders (ThreadOrder.tla) replayed into the real simulators, judged by SchedReplay.tla',
